@@ -71,6 +71,12 @@ func c09Gen(rt *rapid.T) wProg {
 	for i := 0; i < n; i++ {
 		s := gInt(rt, 0, len(p.Sess)-1, "s")
 		switch x := gInt(rt, 0, 99, "opk"); {
+		case x < 12:
+			// a reader working through the messages: receipts in ascending order, then a stale one
+			t := topicFor(s)
+			k := gInt(rt, 1, 2, "from")
+			p.Ops = append(p.Ops, wOp{K: "sub", S: s, T: t}, wOp{K: "note", S: s, T: t, A: "recv", N: k}, wOp{K: "note", S: s, T: t, A: "read", N: k},
+				wOp{K: "note", S: s, T: t, A: gPick(rt, []string{"read", "recv"}, "w2"), N: k + 1}, wOp{K: "note", S: s, T: t, A: "read", N: gPick(rt, []int{k, k - 1, 1000}, "stale")})
 		case x < 62:
 			what := gPick(rt, []string{"read", "read", "read", "recv", "recv", "recv", "kp", "kpa", "kpv", "data", "bogus", ""}, "what")
 			seq := gPick(rt, []int{-1, 0, 1, 1, 1, 2, 2, 2, 3, 3, 4, 5, 6, 1000}, "seq")
